@@ -279,6 +279,11 @@ func (e *Engine) typeOf(t types.Type) spec.Type {
 		}
 	case *types.Slice:
 		return e.listOf(e.typeOf(u.Elem()))
+	case *types.Array:
+		// a byte array ([20]byte account, [32]byte hash) is a byte string of that length (values are modelled functionally)
+		if b, ok := u.Elem().Underlying().(*types.Basic); ok && (b.Kind() == types.Uint8 || b.Kind() == types.Byte) {
+			return spec.Type{K: spec.KNB}
+		}
 	case *types.Map:
 		return spec.Type{K: spec.KMap}
 	case *types.Pointer:
